@@ -42,6 +42,8 @@ type (
 		Var    string
 		Type   string
 		Body   CExpr
+		Ranged bool // forall k: lo..hi :: body — expanded statically
+		Lo, Hi int64
 	}
 )
 
@@ -155,15 +157,29 @@ func (p *parser) parseExpr() CExpr {
 			panic("quantifier variable expected")
 		}
 		typ := "int"
+		ranged := false
+		var lo, hi int64
 		if p.isOp(":") {
 			p.next()
-			typ = p.next().s
+			if p.peek().k == "num" {
+				lo = atoi64(p.next().s)
+				if err := p.expect("."); err != nil {
+					panic(err)
+				}
+				if err := p.expect("."); err != nil {
+					panic(err)
+				}
+				hi = atoi64(p.next().s)
+				ranged = true
+			} else {
+				typ = p.next().s
+			}
 		}
 		if err := p.expect("::"); err != nil {
 			panic(err)
 		}
 		body := p.parseExpr()
-		return &CQuant{Forall: t.s == "forall", Var: v.s, Type: typ, Body: body}
+		return &CQuant{Forall: t.s == "forall", Var: v.s, Type: typ, Body: body, Ranged: ranged, Lo: lo, Hi: hi}
 	}
 	c := p.parseIff()
 	if p.isOp("?") {
@@ -376,4 +392,9 @@ func cexprString(e CExpr) string {
 		return q + " " + e.Var + ": " + e.Type + " :: " + cexprString(e.Body)
 	}
 	return "?"
+}
+
+func atoi64(s string) int64 {
+	b, _ := new(big.Int).SetString(s, 10)
+	return b.Int64()
 }
